@@ -100,14 +100,15 @@ func (g *genState) newObj() *Obj {
 // uniqueLKey maps a primary key (length <= 3 over the 5-letter alphabet) injectively to a 16-bit prefix
 func uniqueLKey(id []byte) LKey {
 	v := len(id) // 0..3
+	letters := append(append([]byte{}, idAlphabet...), 0x62) // every byte that can occur in a generated id
 	for _, b := range id {
 		d := 0
-		for i, a := range idAlphabet {
+		for i, a := range letters {
 			if a == b {
 				d = i
 			}
 		}
-		v = v*5 + d
+		v = v*len(letters) + d
 	}
 	v = v*4 + len(id)
 	return LKey{Data: []byte{byte(v >> 8), byte(v)}, Len: 16}
@@ -416,6 +417,16 @@ func (g *genState) genCase(id string) {
 	if r.Chance(30) { // keys that are prefixes of one another
 		base := randKey(r, 2)
 		g.ids = append(g.ids, base, append(append([]byte{}, base...), hx.Pick(r, idAlphabet)))
+	}
+	if r.Chance(35) { // a key that is a proper prefix of several keys sharing the next byte (single-child inner node)
+		base := randKey(r, 1)
+		x := hx.Pick(r, idAlphabet)
+		k1 := append(append([]byte{}, base...), x, 0x61)
+		k2 := append(append([]byte{}, base...), x, 0xff)
+		g.ids = append(g.ids, base, k1, k2)
+		if r.Chance(50) {
+			g.ids = append(g.ids, append(append([]byte{}, base...), x, 0x62))
+		}
 	}
 	for i := 0; i < 2+r.Intn(4); i++ {
 		g.nkeys = append(g.nkeys, randKey(r, 2))
